@@ -11,26 +11,26 @@ NOTE = ('A check exiting 0 means "every structural obligation of this property h
         'semantics of the external crates the obligations mention (serde, serde_json, futures, tokio, async-broadcast).')
 
 TECH = {
-    'C01': 'MIR dataflow: def-chain slicing + guard dominance on the receive path',
-    'C02': 'MIR path rules (must-pass-through / who-may-write) on the send path',
-    'C03': 'const-evaluated table comparison + call-graph allow-set + MIR path rules on the serializer',
-    'C04': 'serde-shape analysis of the decode target (type-checked ADTs + attributes) + MIR arm mapping',
-    'C05': 'table agreement (MIR literals / AST attributes) between encoder, decoder and derive templates',
-    'C06': 'MIR guard dominance / dataflow on the chain and its reply stream + compile-fail witnesses',
-    'C07': 'coroutine-state lint: saved locals and pre-suspension writes on the receive path (MIR)',
-    'C08': 'MIR guard dominance + path rules in the server call handler',
-    'C09': 'early-exit classification + index dataflow in the server loop (MIR)',
-    'C10': 'ownership-flow (move) analysis of connections in the server loop (MIR)',
-    'C11': 'unsafe lifetime-laundering detection + escape analysis (MIR)',
-    'C12': 'sibling agreement of code-generator templates (syn AST) + field-use analysis',
-    'C13': 'bounds/guard analysis of slice sites + error-discipline lint over the parser (MIR)',
-    'C14': 'format-template analysis of Display impls (AST) vs parser literal set (MIR)',
-    'C15': 'conversion/rename pairing in the code generator (AST dataflow) + keyword-table comparison',
-    'C16': 'trait-impl table extraction (MIR consts) + derive template analysis (AST)',
+    'C01': 'MIR dataflow: def-chain slicing (terminator search on every chain) + guard dominance on the receive path',
+    'C02': 'MIR path rules (must-pass-through / at-most-once / who-may-write) on the send path',
+    'C03': 'translation validation of the ported serializer against the serde_json source (method-by-method emission skeletons) + const-evaluated escape table + MIR origin tracing of raw fragments',
+    'C04': 'serde-shape analysis of the decode target (type-checked ADT + attributes), bypass search over decode instantiations, MIR arm mapping',
+    'C05': 'syntax-tree table agreement between encoder, decoder and derive templates (flag key/field pairing, aligned zips, tagged unit variants)',
+    'C06': 'symbolic accounting (owed replies as a linear form) + path-sensitive exploration + guard dominance in the reply stream (MIR)',
+    'C07': 'coroutine-state lint: locals saved across suspension points, pre-suspension stores, single awaited leaf (MIR + coroutine witnesses)',
+    'C08': 'MIR guard dominance + must-pass-through in the server call handler; imported cancel-safety lint',
+    'C09': 'early-exit classification, path-sensitive (flag-following) must-pass-through, index/list pairing, lifetime-laundering escape analysis (MIR)',
+    'C10': 'ownership-flow (move provenance) + path-sensitive must-pass-through in the server loop (MIR)',
+    'C11': 'lifetime-laundering detection + typed taint/escape analysis + who-may-write on the receive buffer (MIR)',
+    'C12': 'sibling agreement of the three proxy generators (syn AST): shared parser/emitter, destructive-attribute rule, evaluated emitter truth table',
+    'C13': 'guard-based bounds engine (index/range sites, inductive cursors) + error-discipline, loop-progress and conservation rules over the parser MIR',
+    'C14': 'format-template analysis of Display impls (AST) vs parser literal/constructor tables (AST + MIR call graph)',
+    'C15': 'conversion/rename pairing keyed by resolved accessors (MIR) on emitter syntax, type-table and keyword-table comparison, Ident-unraw lint (MIR)',
+    'C16': 'trait-impl table extraction (MIR const bodies + promoted constants) vs mapping table; derive template and declaration-order rules (AST)',
     'C17': 'guard dominance of buffer growth by the limit test + const evaluation (MIR)',
-    'C18': 'index dataflow in the server loop and the select helper (MIR)',
-    'C19': 'coroutine-state lint on transport writes + who-may-write on the id counter (MIR)',
-    'C20': 'constant-argument and path rules on the notified-state streams, sibling agreement (MIR)',
+    'C18': 'symbolic index expressions checked as a congruence (start + i) mod n; winner/start dataflow in the server loop (MIR)',
+    'C19': 'coroutine-state lint + write-until-done dataflow on transport writes, who-may-write on the id counter (MIR)',
+    'C20': 'constant-argument and path rules on the notified-state streams, per crate, with sibling agreement (MIR)',
 }
 LEVEL = {k: 'other' for k in TECH}
 LEVEL.update({'C02': 'proof', 'C07': 'proof', 'C17': 'proof', 'C18': 'proof'})
